@@ -22,6 +22,7 @@ static Bytes small_plain(Rng &rng, size_t maxn) {
 struct C19 : Driver {
   const char *prop() const override { return "C19"; }
   const char *level() const override { return "exploration"; }
+  const char *variants(int) const override { return "plain ndebug/4"; }   // assertion-free build = the shipped semantics
   uint64_t ncases(int tier) const override { return tier ? 2000000 : 200000; }
   std::string rule() const override {
     return "case = lbzip2 -cdf (any clustering/order of the three flags) on stdin that does not start with BZh1-9: sizes 0-5, around k*G-2..k*G+2 for copy buffer size G (shipped 65536 and, via hook H1, 4..4096 so that many buffers are cheap), "
@@ -292,6 +293,7 @@ struct C16 : Driver {
     if (dec) r.argv.push_back("-d");
     if (keep) r.argv.push_back("-k");
     if (!dec) r.argv.push_back("-1");
+    if (rng.below(3) == 0) r.argv.push_back("-v");     // diagnostics traffic on stderr (its failure is one more injected fault)
     for (int i = 0; i < nop; i++) {
       FileSpec f;
       Bytes plain = small_plain(rng, rng.below(3) ? 2000 : (tier ? 420000 : 230000));
@@ -336,7 +338,7 @@ struct C16 : Driver {
     std::vector<Inj> inj;
     for (uint64_t t = 1; t <= b.steps; t++) for (int sg : {SIGINT, SIGTERM, SIGKILL}) inj.push_back({0, sg, (int64_t)t, 0});
     struct CK { int call; std::vector<int> errs; };
-    std::vector<CK> cks = {{sim::C_READ, {EIO}}, {sim::C_WRITE, {EIO, ENOSPC, EFBIG, EPIPE}}, {sim::C_CLOSE, {EIO, ENOSPC}}, {sim::C_FCHOWN, {EPERM}}, {sim::C_FCHMOD, {EPERM}}, {sim::C_FUTIMENS, {EACCES}}, {sim::C_UNLINK, {EACCES, EIO}}};
+    std::vector<CK> cks = {{sim::C_READ, {EIO}}, {sim::C_WRITE, {EIO, ENOSPC, EFBIG, EPIPE}}, {sim::C_CLOSE, {EIO, ENOSPC}}, {sim::C_FCHOWN, {EPERM}}, {sim::C_FCHMOD, {EPERM}}, {sim::C_FUTIMENS, {EACCES}}, {sim::C_UNLINK, {EACCES, EIO}}, {sim::C_STDERR, {EPIPE, ENOSPC}}};
     for (auto &ck : cks) for (unsigned k = 0; k < b.calls[ck.call][sim::R_ANY]; k++) for (int e : ck.errs) inj.push_back({1, ck.call, (int64_t)k, e});
     size_t base_inj = inj.size();
     if (ctx.tier) {   // random double faults: a signal while an error is being handled
@@ -358,10 +360,10 @@ struct C16 : Driver {
       r.step_budget = 200000 + 400 * b.steps;
       sim::Result a = exec(r, Bytes(), c.files, ctx);
       // which faults fired
-      bool any_fired = false, kill9 = false, unlink_fault = false, meta_fault = false, io_fault = false, close_fault = false;
+      bool any_fired = false, kill9 = false, unlink_fault = false, meta_fault = false, io_fault = false, close_fault = false, stderr_fault = false;
       int sig_injected = 0, err_fired = 0;
       for (auto &e : a.sigs) if (e.fired) { any_fired = true; if (e.sig == SIGKILL) kill9 = true; else sig_injected = e.sig; }
-      for (auto &f : a.faults) if (f.fired) { any_fired = true; err_fired = f.err; if (f.call == sim::C_UNLINK) unlink_fault = true; else if (f.call == sim::C_FCHOWN || f.call == sim::C_FCHMOD || f.call == sim::C_FUTIMENS) meta_fault = true; else if (f.call == sim::C_CLOSE) close_fault = true; else io_fault = true; }
+      for (auto &f : a.faults) if (f.fired) { any_fired = true; err_fired = f.err; if (f.call == sim::C_UNLINK) unlink_fault = true; else if (f.call == sim::C_FCHOWN || f.call == sim::C_FCHMOD || f.call == sim::C_FUTIMENS) meta_fault = true; else if (f.call == sim::C_CLOSE) close_fault = true; else if (f.call == sim::C_STDERR) stderr_fault = true; else io_fault = true; }
       if (!any_fired) { if (ctx.st) ctx.st->inc("oracle.fault_position_not_reached"); continue; }
       Verdict v = kill9 ? Verdict() : global_monitors(a, "run with injected fault");
       if (v.ok() && !kill9) {
@@ -393,7 +395,7 @@ struct C16 : Driver {
           }
           if (keep && !in) { v = Verdict::fail("input-removed-with-k", "-k given but " + o.in + " was removed"); break; }
         }
-        if (v.ok() && a.exited(0) && (meta_fault || unlink_fault)) v = Verdict::fail("warning-lost", "a metadata/unlink call failed but the exit status is 0 instead of 4");
+        if (v.ok() && a.exited(0) && (meta_fault || unlink_fault) && !stderr_fault) v = Verdict::fail("warning-lost", "a metadata/unlink call failed but the exit status is 0 instead of 4");
       }
       if (!v.ok()) { v.msg = what + ": " + v.msg + " -- " + a.describe() + "; " + r.brief(); v.narrow["only"] = (int64_t)i; return v; }
       if (ctx.st) ctx.st->distinct("nontrivial", sim::fnv(sim::fnv(sim::fnv(c.seed, inj[i].kind * 100 + inj[i].a), inj[i].b), inj[i].c));
@@ -479,6 +481,10 @@ struct C17 : Driver {
       }
     }
     r.sched = random_sched(rng);
+    if (rng.below(6) == 0) {   // the diagnostic channel itself fails (closed pipe, full device): lbzip2 bails out, which must not cost data
+      sim::Fault ft; ft.call = sim::C_STDERR; ft.role = sim::R_ANY; ft.k = (int)rng.below(5); ft.err = rng.below(2) ? EPIPE : ENOSPC;
+      r.faults.push_back(ft);
+    }
     c.data_desc = std::string(dec ? "decompress" : "compress") + (keep ? " -k" : "") + (force ? " -f" : "") + (om == 1 ? " -c" : om == 2 ? " -t" : "") + " " + std::to_string(nop) + " operands";
     c.runs.push_back(r);
     return c;
@@ -489,6 +495,29 @@ struct C17 : Driver {
     sim::World w0 = make_world(c.files);
     sim::Result a = exec(c.runs[0], Bytes(), c.files, ctx);
     if (Verdict v = global_monitors(a, "run"); !v.ok()) return v;
+    bool stderr_failed = false;
+    for (auto &ft : a.faults) if (ft.fired && ft.call == sim::C_STDERR) stderr_failed = true;
+    if (stderr_failed) {
+      // A failing stderr makes lbzip2 bail out (status 1); the documented file-safety rules still bind:
+      // nothing that existed before may be modified or removed unless it is an input whose output is complete,
+      // or (-f) the output name of an operand.
+      int nopx = (int)c.p.at("nop");
+      std::vector<std::string> ins; { const auto &av = c.runs[0].argv; for (size_t i = av.size() - nopx; i < av.size(); i++) ins.push_back(av[i]); }
+      for (auto &kv : w0.dir) {
+        const sim::Inode &was = w0.inodes[kv.second];
+        const sim::Inode *now = a.world.lookup(kv.first);
+        bool is_in = std::find(ins.begin(), ins.end(), kv.first) != ins.end();
+        bool is_forced_out = false;
+        if (force) for (auto &i : ins) if (out_name(i, dec) == kv.first) is_forced_out = true;
+        if (is_forced_out) continue;
+        if (!now) {
+          const sim::Inode *o = is_in ? a.world.lookup(out_name(kv.first, dec)) : nullptr;
+          if (!(is_in && !keep && om == 0 && o && o->closed_ok)) return Verdict::fail("file-removed", "stderr write failed (" + cls_of_exit(a) + "): existing file " + kv.first + " was removed" + (is_in ? " although no complete output exists" : " although it is not a processed input") + "; " + c.data_desc + "; " + c.runs[0].brief());
+        } else if (now->data != was.data || now->type != was.type) return Verdict::fail("file-modified", "stderr write failed: existing file " + kv.first + " was modified; " + c.data_desc);
+      }
+      if (ctx.st) { ctx.st->inc("kind.stderr-write-failed"); ctx.st->distinct("nontrivial", sim::fnv(0x57de77, sim::fnv(dec * 8 + keep * 4 + force * 2, om))); }
+      return Verdict();
+    }
     // model, operand by operand, on a copy of the initial world
     sim::World m = w0;
     bool warned = false, fatal = false;
@@ -581,6 +610,7 @@ static Registrar r17(new C17);
 struct C18 : Driver {
   const char *prop() const override { return "C18"; }
   const char *level() const override { return "exploration"; }
+  const char *variants(int) const override { return "plain ndebug/4"; }   // assertion-free build = the shipped semantics
   uint64_t ncases(int tier) const override { return tier ? 300000 : 30000; }
   std::string rule() const override {
     return "case = 2-6 FILE operands mixing compressible, incompressible, empty, multi-block, skipped (compressed suffix, missing, hard-linked) and - for decompression - one corrupt operand at a random position; both directions, --sequential over-weighted (its tokens are statics that outlive a run), -k/-c random. "
